@@ -1665,3 +1665,31 @@ def signer_amount_rule(rep, F):
             if bad:
                 rep.violation("SIGNER-amount", "%s|%s" % (F.key(base), H_short(bad)), "%s decides whether a signer is required with %s: the required key witnesses of an entry do not depend on its amount - with a 0-lovelace withdrawal from a key-locked reward account the body still needs that key's signature, the fake witness set has one vkey witness too few and min_fee / validate_fee come out 44 lovelace x ~100 bytes short" % (F.key(base), bad), {"line": facts.loc_line(bb["t"][0])})
     rep.floor("branch points in signer collectors", 12, n)
+
+
+def adv_own_rule(rep, F):
+    """ADV-own: a CBOR head is skipped by its own size"""
+    rep.rule("ADV-own", "in read_bounded_bytes (the reader behind BigInt and PlutusData byte strings) every raw.advance(1 + sz) skips the head whose length was read by the nearest dominating cbor_len() call - the size operand originates from that call, not from the head of an enclosing item: the chunks of an indefinite byte string have heads of their own (0x58 nn for 24..255 bytes, exactly what write_bounded_bytes emits for 64-byte chunks), so skipping them by the outer marker's size (0) mis-aligns the reader - a BigInt of 2^512 or more no longer survives its own encoding, or decodes to a different number")
+    import mustpass as _mp
+    import fieldflow as _ff
+    fid = find_fn(rep, F, "utils::read_bounded_bytes")
+    if not fid:
+        return
+    fn = F.fns[fid]
+    org = _ff.Origins(F, fid)
+    lens = [c for c in F.calls(fid) if (c.to or "").endswith("Deserializer::<R>::cbor_len")]
+    advs = [c for c in F.calls(fid) if (c.to or "").endswith("Deserializer::<R>::advance")]
+    if len(lens) < 2 or len(advs) < 2:
+        rep.lost("read_bounded_bytes: cbor_len / advance calls not recognised (%d / %d)" % (len(lens), len(advs)))
+        return
+    for a in advs:
+        rep.inst("ADV-own")
+        dom = [l for l in lens if _mp.dominated_by(fn, a.bb, l.bb)]
+        if not dom:
+            rep.lost("read_bounded_bytes: an advance is not dominated by any cbor_len")
+            continue
+        nearest = [l for l in dom if all(_mp.dominated_by(fn, l.bb, o.bb) for o in dom)]
+        o = org.of_operand(fn["bbs"][a.bb]["t"][3][1])
+        srcs = {int(x.rsplit("@", 1)[1]) for x in o if x.startswith("call:") and x.split("@")[0].endswith("cbor_len")}
+        if not nearest or nearest[0].bb not in srcs:
+            rep.violation("ADV-own", "read_bounded_bytes|advance@%d" % advs.index(a), "read_bounded_bytes skips a head with a size that does not come from the cbor_len() call that read that head (it comes from %s): inside an indefinite byte string every chunk of 24 bytes or more has a two-byte head, the reader consumes it as if it had one byte - BigInt::from_bytes(to_bytes(2^512 + x)) fails, and with a trailing 0xff byte decodes to a different number" % ("an enclosing item's head" if srcs else "no cbor_len call"), {"line": a.line})
